@@ -319,6 +319,7 @@ def rule_cap(ctx):
     first = [t for t in g.nodes if t.kind == "test" and "self.compression_algo ==" in norm(t.expr) and norm(t.expr).startswith("not ")]
     ctx.check(R, bool(first) and "T" in dead_edge_labels(g, first[0], rets), f.qname, "unknown/unavailable algorithm refused",
               "an unknown or unavailable compression algorithm must be refused", f.loc())
+    c02.rule_early(_Relabel(ctx, "C02.EARLY", "C08.CAP"))       # undecryptable-record budget accumulates
     # record caps: shared with C01.RSL
     from . import c01
     sub = _Relabel(ctx, "C01.RSL", "C08.CAP")
@@ -340,6 +341,39 @@ def rule_cap(ctx):
             check_cond(ctx, R, rs, t.ast, t.expr, {"record.length": [100, 18432, 18433, 70000], "self.recv_record_limit": [16384]},
                        lambda e: e["record.length"] > 16384 + 2048,
                        "ciphertext cap = limit + 2048", "records longer than limit + 2048 must be refused", closed=True)
+
+
+def rule_index_gates(ctx):
+    """sanity gates that later indexing relies on (binders[position] with position < #identities)."""
+    from ..condeval import check_cond
+    R = "C08.INDEX"
+    fi = ctx.index.func(TLSCONN + "_serverGetClientHello")
+    g = ctx.an.cfg(fi)
+    ys = [n for n in g.nodes if is_value_yield(n)]
+    t = [x for x in g.nodes if x.kind == "test" and "len(psk.identities)" in norm(x.expr) and "len(psk.binders)" in norm(x.expr)]
+    eff = [x for x in t if "T" in dead_edge_labels(g, x, ys)]
+    if eff:
+        check_cond(ctx, R, fi, eff[0].ast, eff[0].expr, {"len(psk.identities)": [1, 2, 3], "len(psk.binders)": [1, 2, 3]},
+                   lambda e: e["len(psk.identities)"] != e["len(psk.binders)"],
+                   "PSK identities and binders have equal counts",
+                   "a pre_shared_key extension whose numbers of identities and binders differ must be refused: "
+                   "verify_binder indexes binders[] by the position of the selected identity (IndexError otherwise)",
+                   closed=True)
+    else:
+        ctx.fail(R, fi.qname, "PSK identities/binders count gate", "the gate comparing the number of PSK identities "
+                 "and binders is missing or not effective", fi.loc())
+    vb = ctx.index.func("handshakehelpers:HandshakeHelpers.verify_binder")
+    uses = [x for x in own_nodes(vb.node) if isinstance(x, ast.Subscript) and norm(x.value) == "ext.binders"]
+    ctx.check(R, len(uses) == 1 and norm(uses[0].slice) == "position", vb.qname, "binder looked up by identity position",
+              "verify_binder must take the binder at the selected identity's position", vb.loc())
+    # empty-list gates that later [0] / [-1] indexing relies on
+    for frag, what in (("not alpnExt.protocol_names", "ALPN list not empty"),
+                       ("len(sniExt.hostNames) > 1", "at most one SNI host name"),
+                       ("not sniExt.hostNames[0]", "SNI host name not empty"),
+                       ("psk is not clientHello.extensions[-1]", "PSK extension is the last one (binder covers the rest)")):
+        tt = [x for x in g.nodes if x.kind == "test" and norm(x.expr) == frag]
+        ctx.check(R, bool(tt) and "T" in dead_edge_labels(g, tt[0], ys), fi.qname, "ClientHello sanity gate: " + what,
+                  "the ClientHello sanity gate `%s` is missing or not effective" % frag, fi.loc())
 
 
 def rule_progress(ctx):
@@ -406,6 +440,7 @@ RULES = [
     ("C08.MAP", "quick", rule_map),
     ("C08.FLOW-RAISE", "quick", rule_flow_raise),
     ("C08.CAP", "quick", rule_cap),
+    ("C08.INDEX", "quick", rule_index_gates),
     ("C08.PROGRESS", "quick", rule_progress),
     ("C08.POSTFAIL", "quick", rule_postfail),
     ("C08.CONSUME", "quick", rule_consume_c08),
